@@ -34,6 +34,10 @@ type Net struct {
 	// Packet behaviour: Plan decides what happens to each datagram; nil = deliver once, unchanged.
 	Plan func(d *Datagram) []Delivery
 
+	// ClientIP, if set, is the source IP of every dialing socket (all clients behind one NAT);
+	// otherwise every socket gets its own address.
+	ClientIP net.IP
+
 	Streams   []*StreamCapture
 	Datagrams []*Datagram // every datagram handed to the network, in order
 	Events    []Event     // every delivery to (ReadFrom return at) an endpoint, in order
@@ -316,6 +320,9 @@ func (n *Net) DialPair(address string) (*Conn, *Conn, error) {
 	}
 	n.nextPort++
 	caddr := &net.TCPAddr{IP: net.IPv4(10, 9, 0, byte(1+n.nextPort%200)), Port: n.nextPort}
+	if n.ClientIP != nil {
+		caddr.IP = n.ClientIP
+	}
 	cap := &StreamCapture{ID: len(n.Streams), ClientAddr: caddr.String(), ServerAddr: addr.String()}
 	n.Streams = append(n.Streams, cap)
 	n.mu.Unlock()
@@ -404,6 +411,9 @@ func (n *Net) listenPacket(laddr string) (*PacketConn, error) {
 	if laddr == "" {
 		n.nextPort++
 		addr = &net.UDPAddr{IP: net.IPv4(10, 9, 1, byte(1+n.nextPort%200)), Port: n.nextPort}
+		if n.ClientIP != nil {
+			addr.IP = n.ClientIP
+		}
 	} else {
 		a, err := net.ResolveUDPAddr("udp", laddr)
 		if err != nil {
@@ -412,6 +422,11 @@ func (n *Net) listenPacket(laddr string) (*PacketConn, error) {
 		if a.Port == 0 {
 			n.nextPort++
 			a.Port = n.nextPort
+		}
+		if a.IP == nil || a.IP.IsUnspecified() {
+			// a socket bound to the wildcard address answers from the address it was reached at;
+			// the simulated hosts have one address each: the server is 10.8.0.1
+			a = &net.UDPAddr{IP: net.IPv4(10, 8, 0, 1), Port: a.Port}
 		}
 		addr = a
 	}
@@ -579,3 +594,6 @@ func (p *PacketConn) SetBlackHole(v bool) {
 	p.BlackHole = v
 	p.mu.Unlock()
 }
+
+// Capture returns the capture record of the connection this end belongs to.
+func (c *Conn) Capture() *StreamCapture { return c.cap }
